@@ -2988,6 +2988,447 @@ def gen_order(tier, seed):
         yield {"kind": "gff_annot", "seqid": "s", "source": "src", "feats": list(perm)}
 
 
+
+
+# ===========================================================================
+# Second dimension audit (result identity, seed-independent values, two awkward features, resized reuse, derived inputs)
+# ===========================================================================
+A2_TOKENS = [" ", '"', "/", "=", "\n", "  ", "/k=", '""', "..", "%"]
+
+
+def two_feature_values():
+    """Every ordered pair of awkward tokens in one value: separated, adjacent and leading."""
+    out = []
+    for t1 in A2_TOKENS:
+        for t2 in A2_TOKENS:
+            for v in ("a" + t1 + "b" + t2 + "c", "a" + t1 + t2 + "c", t1 + "a" + t2):
+                if v not in out:
+                    out.append(v)
+    return out
+
+
+def gen_audit2(tier, seed):
+    b = B()
+    L = LETTERS[seed % 5]
+    P = POS_PALETTES[seed % 5]
+    # A: copies and other handed-out containers
+    for fmt in ("fasta", "fastq", "genbank", "gff"):
+        yield {"kind": "a2_copy", "fmt": fmt}
+    # B: every value the anchored code treats by value, with every seed: all symbols of both alphabets in FASTA (typed),
+    # all nucleotide symbols in FASTQ (typed, also as RNA), every LOCUS division
+    nuc = "".join(str(s) for s in b.seq.NucleotideSequence.alphabet_amb.get_symbols())
+    prot = "".join(str(s) for s in b.seq.ProteinSequence.alphabet.get_symbols())
+    for cpl in (1, 80):
+        for sym in nuc:
+            yield {"kind": "fasta", "h": "n", "s": sym, "t": "iupac", "cpl": cpl}
+            yield {"kind": "fasta", "h": "n", "s": "A" + sym + "T", "t": "iupac", "cpl": cpl}
+        for sym in prot:
+            yield {"kind": "fasta", "h": "p", "s": sym, "t": "prot", "cpl": cpl}
+            yield {"kind": "fasta", "h": "p", "s": "M" + sym + "W", "t": "prot", "cpl": cpl}
+    for sym in nuc:
+        for rna in (False, True):
+            yield {"kind": "a2_fastq_typed", "s": "A" + sym + "T" + sym, "rna": rna}
+    for div in ("PRI", "ROD", "MAM", "VRT", "INV", "PLN", "BCT", "VRL", "PHG", "SYN", "UNA", "EST", "PAT", "STS", "GSS", "HTG",
+                "HTC", "ENV", "CON"):
+        for mol in ("DNA", "mRNA", "Protein"):
+            for circ in (False, True):
+                yield {"kind": "gb_locus", "a": ["AB000001", 1224, mol, circ, div, "14-NOV-2006"]}
+    # C: two awkward features in one value
+    for v in two_feature_values():
+        yield gbcase([feat([[P[0], P[1], 1, 0]], [("note", v)])])
+        yield gbcase([feat([[P[0], P[1], -1, BEY_L], [P[2], P[2], -1, 0]], [("gene", "g"), ("note", v), ("pseudo", None)])])
+    for s in strings_upto([L, ";", "=", "%", ",", " ", "\t", "é", "&", "#", ">"], 2, 1):
+        yield {"kind": "gff", "ents": [[[0, s]]]}
+        yield {"kind": "gff", "ents": [[[1, s]]]}
+    for v in two_feature_values():
+        if '"' not in v or True:
+            yield {"kind": "gff", "ents": [[[8, [["ID", "i"], ["Note", v]]]]]}
+    for i in strings_upto([L, " ", "@", "+", ":", "/"], 2, 0):
+        for w in (None, 1):
+            yield {"kind": "fastq", "o": "Sanger", "w": w, "id": i, "seq": "ACG", "sc": [31, 10, 31], "ci": 1}
+    for sc in (-1e-30, 1e30, -0.0, 1e-320):
+        yield {"kind": "gff", "ents": [[[5, sc], [6, -1]]]}
+    pieces = ["", "x", " y", " y ", "  ", "a  b"]
+    for n in (1, 2, 3):
+        for t in itertools.product(pieces, repeat=n):
+            if any(p in (" y ", "  ", "a  b") for p in t):
+                yield {"kind": "gb_field", "content": list(t), "sub": [["S", list(t)]]}
+    # D: reuse with content of another size: X -> Y -> X
+    for fmt in ("fasta", "fastq", "genbank", "gff"):
+        for i in range(5):
+            for j in range(5):
+                if i != j:
+                    yield {"kind": "a2_resize", "fmt": fmt, "i": i, "j": j}
+    # E: derived inputs
+    for what in ("annot_slice", "annseq_slice", "cross_format", "seq_derived", "scores_derived", "field_tuple", "gff_tuple"):
+        for v in range(6):
+            yield {"kind": "a2_derived", "what": what, "v": v}
+    for n in (1, 2, 3):
+        for s1 in strings_upto("AC-", n, n):
+            for s2 in strings_upto("AC-", n, n):
+                yield {"kind": "a2_alignment", "rows": [s1, s2]}
+    for s in ("A-C", "--", "AC"):
+        yield {"kind": "a2_alignment", "rows": [s, s[::-1], s]}
+
+
+def check_a2_copy(case, ctx):
+    """copy() is not an edit operation of the statement: whether the copy is usable is only counted.  Demanded (dimension
+    A): whatever copy() and the other container getters hand out, editing it leaves the original unchanged."""
+    b = B()
+    fmt = case["fmt"]
+    ctx.ev(1, 1)
+    ctx.count("unspecified")
+    if fmt == "fasta":
+        f = b.fasta.FastaFile()
+        f["a"] = "ACGT"
+        f["b"] = "GG"
+        edit = lambda c: c.__setitem__("z", "TT")  # noqa: E731
+    elif fmt == "fastq":
+        f = b.fastq.FastqFile("Sanger")
+        f["a"] = ("AC", [1, 2])
+        edit = lambda c: c.__setitem__("z", ("T", [3]))  # noqa: E731
+    elif fmt == "genbank":
+        f = b.gb.GenBankFile.read(io.StringIO(GB_TEXT))
+        edit = lambda c: c.append("COMMENT", ["x"])  # noqa: E731
+    else:
+        f = b.gff.GFFFile.read(io.StringIO(GFF_TEXT))
+        edit = lambda c: c.append("s", "src", "gene", 1, 2, None, None, None, {"ID": "z"})  # noqa: E731
+    spec = SPECS[fmt]
+    t0, live0 = text_of(f), spec.live(f)
+    try:
+        c = f.copy()
+    except Exception as e:  # noqa: BLE001
+        ctx.count("outside_statement_copy_%s_raises_%s" % (fmt, exc_name(e)))
+        c = None
+    if c is not None:
+        try:
+            same = spec.live(c) == live0
+        except Exception:  # noqa: BLE001
+            same = False
+        ctx.count("outside_statement_copy_%s_%s" % (fmt, "equal_view" if same else "different_view"))
+        if c is f or c.lines is f.lines:
+            ctx.violation("copy|%s|result_is_operand" % fmt, "copy() returned the file itself or shares its line list", case,
+                          "new object", "shared")
+        try:
+            edit(c)
+            c.lines.append("CHANGED")
+        except Exception:  # noqa: BLE001
+            pass
+    # containers handed out by getters
+    if fmt == "gff":
+        d = f.directives()
+        d.append(("CHANGED", 0))
+        d.clear()
+    if fmt == "genbank":
+        f.get_indices("ORIGIN").append(99)
+        f.get_fields("SOURCE").clear()
+    if fmt in ("fasta", "fastq"):
+        ks = list(f.keys())
+        ks.clear()
+    ctx.outcome(("a2_copy", fmt))
+    if text_of(f) != t0 or spec.live(f) != live0:
+        ctx.violation("copy|%s|original_changed" % fmt, "editing a copy / a handed-out container changed the original file", case,
+                      t0, text_of(f))
+
+
+def check_a2_fastq_typed(case, ctx):
+    b = B()
+    ctx.ev(1, 1)
+    ctx.count("accepted")
+    s, rna = case["s"], case["rna"]
+    try:
+        so = b.seq.NucleotideSequence(s)
+        f = b.fastq.FastqFile("Sanger")
+        b.fastq.set_sequence(f, so, b.np.array([31, 10, 0, 93]), header="r", as_rna=rna)
+        b.fastq.set_sequences(f, {"r2": (so, b.np.array([1, 2, 3, 4]))}, as_rna=rna)
+        text = text_of(f)
+        g = b.fastq.FastqFile.read(io.StringIO(text), "Sanger")
+        r, q = b.fastq.get_sequence(g, "r")
+        d = b.fastq.get_sequences(g)
+        got = [str(r), q.tolist(), [[k, str(v[0]), v[1].tolist()] for k, v in d.items()], rna and "T" in text.split("\n")[1]]
+    except Exception as e:  # noqa: BLE001
+        ctx.violation("fastq|typed|%s|symbol_%s" % (exc_name(e), "rna" if rna else "dna"), "typed FASTQ round trip raised", case,
+                      s, repr(e))
+        return
+    exp = [str(so), [31, 10, 0, 93], [["r", str(so), [31, 10, 0, 93]], ["r2", str(so), [1, 2, 3, 4]]], False]
+    ctx.outcome(("a2_fastq_typed", s, rna))
+    if got != exp:
+        ctx.violation("fastq|typed|differs|symbol_%s" % ("rna" if rna else "dna"), "sequence recovered from FASTQ differs", case,
+                      exp, got)
+
+
+def check_a2_resize(case, ctx):
+    """Reuse with content of another size: X -> Y -> X on one object, with every read / write in between; after each
+    step the object must be indistinguishable from a fresh object given that content."""
+    b = B()
+    fmt, i, j = case["fmt"], case["i"], case["j"]
+    ctx.ev(1, 1)
+    ctx.count("accepted")
+    P = POS_PALETTES[0]
+    pal = gb_feature_palette(P)
+    if fmt == "fasta":
+        contents = [{"a": "A"}, {"a": "ACGTACGTAC", "b": ""}, {"a": "", "b": "GG", "c": "ACGT" * 50}, {"b": "ACG"},
+                    {"c": "T" * 7, "a": "ACGTACG", "b": "G", "d": "NN"}]
+        new = lambda: b.fasta.FastaFile(3)  # noqa: E731
+        rd = lambda t: sorted(b.fasta.FastaFile.read(io.StringIO(t), 3).items())  # noqa: E731
+    elif fmt == "fastq":
+        contents = [{"a": ("A", [31])}, {"a": ("ACGTACGTAC", [31, 10] * 5), "b": ("", [])},
+                    {"a": ("", []), "b": ("GG", [1, 2]), "c": ("ACGT" * 5, [10] * 20)}, {"b": ("ACG", [0, 93, 31])},
+                    {"c": ("T" * 7, [31] * 7), "a": ("ACGTACG", [10] * 7), "b": ("G", [5]), "d": ("NN", [1, 1])}]
+        new = lambda: b.fastq.FastqFile("Sanger", 2)  # noqa: E731
+        rd = lambda t: sorted((k, s, q.tolist()) for k, (s, q) in b.fastq.FastqFile.read(io.StringIO(t), "Sanger").items())  # noqa: E731
+    elif fmt == "genbank":
+        contents = [([pal[0]], "A", 1), ([pal[1], pal[6], pal[7]], "ACGT" * 16, 7), ([pal[8]], "ACGT" * 40 + "A", 100),
+                    ([pal[2], pal[3]], "ACGTACGTAC", 1), ([pal[k] for k in (0, 4, 5, 9, 10, 11)], "ACGT" * 3, 55)]
+        new = lambda: b.gb.GenBankFile()  # noqa: E731
+
+        def rd(t):
+            r = b.gb.get_annotated_sequence(b.gb.GenBankFile.read(io.StringIO(t)))
+            return [show_annot(annot_model(b, r.annotation)), str(r.sequence), r.sequence_start]
+    else:
+        E = [gff_entry(d) for d in ([], [[0, "q;b"], [6, -1]], [[5, 2.5], [8, None]], [[2, "CDS"], [7, 1]], [[3, 7], [4, 7]])]
+        contents = [[E[0]], [E[1], E[2], E[3]], [E[4], E[0]], [E[3], E[2], E[1], E[0], E[4]], [E[2]]]
+        new = lambda: b.gff.GFFFile()  # noqa: E731
+        rd = lambda t: [gff_view(b, x) for x in b.gff.GFFFile.read(io.StringIO(t))]  # noqa: E731
+
+    def put(f, c):
+        if fmt in ("fasta", "fastq"):
+            for k in [k for k in f if k not in c]:
+                del f[k]
+            for k, v in c.items():
+                f[k] = v
+        elif fmt == "genbank":
+            feats, s, st = c
+            b.gb.set_annotated_sequence(f, b.AnnotatedSequence(b.Annotation([mk_feature(b, x) for x in feats]),
+                                                               b.seq.NucleotideSequence(s), st))
+        else:
+            while len(f):
+                del f[len(f) - 1]
+            for e in c:
+                f.append(*gff_args(b, e))
+
+    def observe(f):
+        # every read that could cache something in the object
+        len(f)
+        if fmt in ("fasta", "fastq"):
+            list(f.items())
+        elif fmt == "genbank":
+            b.gb.get_annotation(f)
+            b.gb.get_sequence(f)
+            [f[k] for k in range(len(f))]
+        else:
+            [f[k] for k in range(len(f))]
+            f.directives()
+        t = text_of(f)
+        return rd(t), rd(text_of(f))
+
+    try:
+        used = new()
+        for step, k in enumerate((i, j, i)):
+            put(used, contents[k])
+            got = observe(used)
+            fresh = new()
+            put(fresh, contents[k])
+            exp = observe(fresh)
+            if got != exp:
+                ctx.violation("reuse|%s|differs_from_fresh_after_resize|step%d_%s" % (
+                    fmt, step, "grow" if step and len(str(contents[k])) > len(str(contents[(i, j, i)[step - 1]])) else "shrink"),
+                    "an object whose content was replaced by content of another size differs from a fresh object", case,
+                    exp[0], got[0])
+                return
+    except Exception as e:  # noqa: BLE001
+        ctx.violation("reuse|%s|resize_%s" % (fmt, exc_name(e)), "resize scenario raised", case, "success", repr(e))
+        return
+    ctx.outcome(("a2_resize", fmt, i, j))
+
+
+def feats_of(b, annotation):
+    """JSON model (as used by the generators) of an Annotation object the library handed out."""
+    out = []
+    for ft in annotation:
+        out.append({"key": ft.key, "locs": [list(loc_model(b, l)) for l in ft.locs],
+                    "qual": [[k, v] for k, v in ft.qual.items()]})
+    return out
+
+
+def check_a2_derived(case, ctx):
+    """Objects handed out by the library (slices, parsed objects, views, returned tuples) as inputs of the writers.  The
+    expected value is computed from the derived object's own public content."""
+    b = B()
+    np = b.np
+    what, v = case["what"], case["v"]
+    ctx.ev(1, 1)
+    ctx.count("accepted")
+    P = POS_PALETTES[0]
+    pal = gb_feature_palette(P)
+    GB, GFF = b.gb.GenBankFile, b.gff.GFFFile
+    bad = None
+    try:
+        base = b.Annotation([mk_feature(b, x) for x in (pal[0], pal[4], pal[6], pal[7], pal[8], pal[11], pal[13])])
+        seq = b.seq.NucleotideSequence("ACGTTGCAACGT")
+        if what == "annot_slice":
+            for a, z in [(1, 13), (2, 6), (5, 10), (3, 4), (1, 2), (9, 13)][v:v + 1]:
+                for sub in (base[a:z], base[a:], base[:z]):
+                    feats = feats_of(b, sub)
+                    f = GB()
+                    b.gb.set_annotation(f, sub)
+                    got = annot_model(b, b.gb.get_annotation(GB.read(io.StringIO(text_of(f))))) if len(sub) else frozenset()
+                    if got not in expected_annots(feats):
+                        bad = ("genbank_from_slice", show_annot(expected_annots(feats)[0]), show_annot(got))
+                    if any(val is None for x in feats for _, val in x["qual"]):
+                        continue  # GFF3 attributes cannot be valueless (outside the documented str -> str mapping)
+                    g = GFF()
+                    try:
+                        b.gff.set_annotation(g, sub, seqid="s", source="x")
+                    except ValueError:
+                        continue  # documented: multi-location feature without ID
+                    got = annot_model(b, b.gff.get_annotation(GFF.read(io.StringIO(text_of(g)))))
+                    if got != expected_annots(feats, drop_defects=True)[0]:
+                        bad = ("gff_from_slice", show_annot(expected_annots(feats, drop_defects=True)[0]), show_annot(got))
+        elif what == "annseq_slice":
+            aseq = b.AnnotatedSequence(base, seq, sequence_start=[1, 1, 1, 7, 7, 100][v])
+            s0 = aseq.sequence_start
+            derived = [aseq[s0 + 1:s0 + 7], aseq[s0:], aseq[:s0 + 5], aseq[s0 + 3:s0 + 4], aseq.reverse_complement(),
+                       aseq[s0 + 2:s0 + 11].reverse_complement(sequence_start=5)][v]
+            f = GB()
+            b.gb.set_annotated_sequence(f, derived)
+            r = b.gb.get_annotated_sequence(GB.read(io.StringIO(text_of(f))))
+            feats = feats_of(b, derived.annotation)
+            if annot_model(b, r.annotation) not in expected_annots(feats) or str(r.sequence) != str(derived.sequence) \
+                    or r.sequence_start != derived.sequence_start:
+                bad = ("annotated_sequence_from_slice", [show_annot(expected_annots(feats)[0]), str(derived.sequence),
+                                                         derived.sequence_start],
+                       [show_annot(annot_model(b, r.annotation)), str(r.sequence), r.sequence_start])
+        elif what == "cross_format":
+            src = [pal[k] for k in [(0,), (4, 5), (1, 2, 3), (9, 10), (12, 13), (0, 5, 14)][v]]
+            src = [{**x, "qual": x["qual"] + [["ID", "f%d" % n]]} for n, x in enumerate(src)]
+            f = GB()
+            b.gb.set_annotation(f, b.Annotation([mk_feature(b, x) for x in src]))
+            parsed = b.gb.get_annotation(GB.read(io.StringIO(text_of(f))))
+            g = GFF()
+            b.gff.set_annotation(g, parsed, seqid="s", source="x")
+            parsed2 = b.gff.get_annotation(GFF.read(io.StringIO(text_of(g))))
+            h = GB()
+            b.gb.set_annotation(h, parsed2)
+            parsed3 = b.gb.get_annotation(GB.read(io.StringIO(text_of(h))))
+            exp = expected_annots(src, drop_defects=True)[0]
+            if annot_model(b, parsed2) != exp or annot_model(b, parsed3) != exp:
+                bad = ("genbank_to_gff_to_genbank", show_annot(exp), [show_annot(annot_model(b, parsed2)),
+                                                                      show_annot(annot_model(b, parsed3))])
+        elif what == "seq_derived":
+            s = b.seq.NucleotideSequence("ACGTNRTTGCA")
+            d = [s[2:7], s[::-1], s[::2], s.reverse().complement(), s[np.array([0, 3, 3, 9])], s[np.arange(11) % 3 == 0]][v]
+            fa = b.fasta.FastaFile(3)
+            b.fasta.set_sequence(fa, d, "h")
+            fq = b.fastq.FastqFile("Sanger", 2)
+            b.fastq.set_sequence(fq, d, np.arange(len(d)), "h")
+            gbf = GB()
+            b.gb.set_sequence(gbf, d, 5)
+            got = [str(b.fasta.get_sequence(b.fasta.FastaFile.read(io.StringIO(text_of(fa))), "h")),
+                   str(b.fastq.get_sequence(b.fastq.FastqFile.read(io.StringIO(text_of(fq)), "Sanger"), "h")[0]),
+                   str(b.gb.get_sequence(GB.read(io.StringIO(text_of(gbf)))))]
+            if got != [str(d)] * 3:
+                bad = ("derived_sequence", str(d), got)
+            p = b.seq.NucleotideSequence("ATGGCCTAA").translate(complete=True)
+            fp = b.fasta.FastaFile()
+            b.fasta.set_sequence(fp, p[v % 3:], "p")
+            if str(b.fasta.get_sequence(fp, "p", b.seq.ProteinSequence)) != str(p[v % 3:]):
+                bad = ("derived_protein", str(p), str(b.fasta.get_sequence(fp, "p", b.seq.ProteinSequence)))
+        elif what == "scores_derived":
+            src = b.fastq.FastqFile("Sanger", [None, 1, 2][v % 3])
+            src["r"] = ("ACGTACGT", [31, 10, 0, 60, 31, 31, 10, 5])
+            q = b.fastq.FastqFile.read(io.StringIO(text_of(src)), "Sanger").get_quality("r")
+            d = [q, q[::2], q[::-1], q[1:6], q[[0, 7, 3]], q[q > 9]][v]
+            want = [int(x) for x in d]
+            for off in ("Sanger", "Solexa", 40):
+                dst = b.fastq.FastqFile(off, 3)
+                dst["x"] = ("ACGTACGT"[:len(d)], d)
+                back = b.fastq.FastqFile.read(io.StringIO(text_of(dst)), off)["x"][1].tolist()
+                if back != want or [int(x) for x in d] != want:
+                    bad = ("derived_scores", want, back)
+        elif what == "field_tuple":
+            src = GB.read(io.StringIO(GB_TEXT)) if v % 2 == 0 else GB()
+            if v % 2:
+                for val in GB_VALUES + GB_EMPTY_LINE_VALUES:
+                    src.append(*GenBankSpec._args(val))
+            t_src = text_of(src)
+            views = [GenBankSpec._view(src[k]) for k in range(len(src))]
+            dst = GB()
+            dst.append("LOCUS", ["x"])
+            for k in range(len(src)):
+                item = src[k]
+                if v // 2 == 0:
+                    dst.append(*item)
+                elif v // 2 == 1:
+                    dst.insert(0, *item)
+                else:
+                    dst.append("TMP", ["t"])
+                    dst[len(dst) - 1] = item
+            got = [GenBankSpec._view(x) for x in GB.read(io.StringIO(text_of(dst)))]
+            exp = ([["LOCUS", ["x"], []]] + views) if v // 2 != 1 else (views[::-1] + [["LOCUS", ["x"], []]])
+            if got != exp or [GenBankSpec._view(dst[k]) for k in range(len(dst))] != exp:
+                bad = ("field_tuple_into_other_file", exp, got)
+            if text_of(src) != t_src:
+                bad = ("source_file_changed", t_src, text_of(src))
+        elif what == "gff_tuple":
+            src = GFF.read(io.StringIO(GFF_TEXT))
+            for d in gff_hist_values("a"):
+                src.append(*gff_args(b, gff_entry(d)))
+            t_src = text_of(src)
+            views = [gff_view(b, src[k]) for k in range(len(src))]
+            dst = GFF()
+            for k in range(len(src)):
+                item = src[k]
+                if v % 3 == 0:
+                    dst.append(*item)
+                elif v % 3 == 1:
+                    dst.insert(0, *item)
+                else:
+                    dst.append("tmp", "t", "t", 1, 1, None, None, None, None)
+                    dst[len(dst) - 1] = item
+            got = [gff_view(b, x) for x in GFF.read(io.StringIO(text_of(dst)))]
+            exp = views if v % 3 != 1 else views[::-1]
+            if len(got) != len(exp) or not all(same_entry(x, y) for x, y in zip(exp, got)) or text_of(src) != t_src:
+                bad = ("entry_tuple_into_other_file", exp, got)
+    except Exception as e:  # noqa: BLE001
+        import traceback
+
+        ctx.violation("derived|%s|%s" % (what, exc_name(e)), "a derived object is not accepted as input", case, "success",
+                      "".join(traceback.format_exception(type(e), e, e.__traceback__))[-900:])
+        return
+    ctx.outcome(("a2_derived", what, v, bad is None))
+    if bad:
+        ctx.violation("derived|%s|%s" % (what, bad[0]), "content of a derived object is not recovered", case, bad[1], bad[2])
+
+
+def check_a2_alignment(case, ctx):
+    """fasta.get_alignment / set_alignment: gapped strings -> Alignment -> gapped strings."""
+    b = B()
+    rows = case["rows"]
+    ctx.ev(1, 1 if any("-" in r for r in rows) else 0)
+    ctx.count("accepted")
+    try:
+        f = b.fasta.FastaFile(2)
+        for k, r in enumerate(rows):
+            f["s%d" % k] = r
+        ali = b.fasta.get_alignment(b.fasta.FastaFile.read(io.StringIO(text_of(f))))
+        g = b.fasta.FastaFile(2)
+        b.fasta.set_alignment(g, ali, ["s%d" % k for k in range(len(rows))])
+        got = list(b.fasta.FastaFile.read(io.StringIO(text_of(g))).items())
+        ali2 = b.fasta.get_alignment(g)
+        same = ali2.trace.tolist() == ali.trace.tolist() and [str(s) for s in ali2.sequences] == [r.replace("-", "") for r in rows]
+    except Exception as e:  # noqa: BLE001
+        allgap = any(all(r[c] == "-" for r in rows) for c in range(len(rows[0])))
+        if allgap or any(r.replace("-", "") == "" for r in rows):
+            ctx.outcome(("a2_ali_exc", exc_name(e)))
+            return
+        ctx.violation("fasta|alignment|%s" % exc_name(e), "alignment round trip raised", case, rows, repr(e))
+        return
+    ctx.outcome(("a2_ali", tuple(rows)))
+    if got != [("s%d" % k, r) for k, r in enumerate(rows)] or not same:
+        ctx.violation("fasta|alignment|differs", "gapped sequences written from the parsed alignment differ", case, rows, got)
+
+
 # ===========================================================================
 # shards / dispatch
 # ===========================================================================
@@ -3011,11 +3452,14 @@ FAMILIES = {
     "flavours": (gen_flavours, 2, 2),
     "alias_reuse": (gen_alias, 1, 1),
     "order": (gen_order, 1, 1),
+    "audit2": (gen_audit2, 3, 3),
 }
 CHECKERS = {"fasta": check_fasta, "fasta_multi": check_fasta_multi, "fastq": check_fastq, "fastq_multi": check_fastq_multi,
             "gb": check_gb, "gb_locus": check_gb_locus, "gb_field": check_gb_field, "gff": check_gff, "gff_annot": check_gff_annot,
             "general": check_general, "gb_unspec": check_gb_unspec, "gb_many": check_gb_many,
-            "fastq_flavour": check_fastq_flavour, "num_flavour": check_num_flavour, "alias": check_alias, "reuse": check_reuse}
+            "fastq_flavour": check_fastq_flavour, "num_flavour": check_num_flavour, "alias": check_alias, "reuse": check_reuse, "a2_copy": check_a2_copy,
+            "a2_fastq_typed": check_a2_fastq_typed, "a2_resize": check_a2_resize, "a2_derived": check_a2_derived,
+            "a2_alignment": check_a2_alignment}
 
 
 def shards(tier, seed):
